@@ -53,6 +53,18 @@ def hist_records():
     return _RECS
 
 
+_EQ = []
+EQ_SEL = ["string(r.v) == '1'", "str(r.v) == 'True'", "string(r.v) == '1.0'", "str(r.v) == '0.0'", "str(r.v) == '-0.0'", "string(r.v) == 'False'", "varint(r.v) == 1 and str(r.v) == '1'",
+          "r.v in [True]", "str(r.v) in ['1', '0']", "float(r.v) == 1 and str(r.v) == '1.0'", "repr(r.v) == '1'", "string(r.v) == string(1)", "str(r.v) == str(r.w)"]
+
+
+def eq_records():
+    if not _EQ:
+        for t, v in (("varint", "1"), ("boolean", "True"), ("float", "1.0"), ("varint", "0"), ("boolean", "False"), ("float", "0.0"), ("float", "-0.0")):
+            _EQ.append(recs.build_record(rs("sel/eq", [[t, "v"], ["varint", "w"]], [v, "1"])))
+    return _EQ
+
+
 def result_of(sel, rec):
     try:
         return ["v", bool(sel.match(rec))]
@@ -118,7 +130,7 @@ def run_long(case):
 
     h = jhash(case)
     expr, idx, n = case["expr"], case["recs"], case["n"]
-    rr = hist_records()
+    rr = hist_records() if case.get("pool") != "eq" else eq_records()
     viol = []
     outs = []
     for engine, cls in (("interpreted", Selector), ("compiled", CompiledSelector)):
@@ -158,7 +170,7 @@ def run_hist(case):
 
     h = jhash(case)
     expr, hist = case["expr"], case["hist"]
-    rr = hist_records()
+    rr = hist_records() if case.get("pool") != "eq" else eq_records()
     viol = []
     states = []
     outs = []
@@ -200,6 +212,9 @@ VALS = {
     "B": rs("t/b", [["string", "b"], ["string[]", "l"]], ["'x'", "['x', 'q']"]),
     "x3": rs("t/a", [["string", "a"], ["varint", "n"]], ["'xx'", "3"]),
     "x9": rs("t/a", [["string", "a"], ["varint", "n"]], ["'x'", "9"]),  # equals x1 when n is ignored for comparison
+    # the next generation of t/a: one more field
+    "A3": rs("t/a", [["string", "a"], ["varint", "n"], ["string", "d"]], ["'x'", "1", "'corp'"]),
+    "A4": rs("t/a", [["string", "a"], ["varint", "n"], ["string", "d"]], ["'y'", "1", "'lab'"]),
     # two types of one name whose (name, hash) identifiers coincide
     "T1": rs("t/k", [["stringlist", "a"], ["string", "b"]], ["['x', 'q']", "'y'"]),
     "T2": rs("t/k", [["string", "a"], ["string", "listb"]], ["'q'", "'x'"]),
@@ -227,7 +242,8 @@ ASEL = ["r.n == 1", "r.n > 1", "r.a == 'x'", "'x' in r.a", "lower(r.a) == 'x'", 
         "r.b == 'x' or r.a == 'y'", "any(x == 'q' for x in r.l)", "r.n + 1 == 3", "1 < r.n < 3", "r._source == None", "Type.varint >= 2",
         "field_regex(r, ['a', 'b'], '^x')", "has_field(r, 'l')", "names(r) == names(r)", "r.n < 'a'",
         "r.n == 1 or name(r) == 't/b'", "r.zz == 1 or True", "r.n == 2 or has_field(r, 'b')", "r.n == 1 or Type.string == 'x'", "not r.n == 1",
-        "r.n is not None", "r.zz != 1 or name(r) == 't/b'", "r.n == 9", "r.n != 9 and r.a == 'x'", "any(f.name == 'l' for f in fields('string[]'))", "field_contains(r, ['b', 'a'], ['x'])"]
+        "r.n is not None", "r.zz != 1 or name(r) == 't/b'", "r.n == 9", "r.n != 9 and r.a == 'x'", "any(f.name == 'l' for f in fields('string[]'))", "field_contains(r, ['b', 'a'], ['x'])",
+        "r.d == 'corp' and r.a == 'x'", "r.a == 'x' and r.d == 'corp'", "r.d == 'corp'", "r.n == 1 and r.d != 'lab'"]
 _n = [0]
 
 
@@ -431,6 +447,10 @@ def cases(tier):
             for i in range(nrec):
                 yield {"kind": "pair", "first": e1, "second": e2, "rec": i}
     yield from selhist.cases(tier)
+    for expr in EQ_SEL:
+        for k in range(1, L + 1):
+            for hist in itertools.product(range(7), repeat=k):
+                yield {"kind": "hist", "pool": "eq", "expr": expr, "hist": list(hist)}
     for adapter, alphabet in ADAPTERS.items():
         for k in range(0, 4):
             for seq in itertools.product(alphabet, repeat=k):
@@ -441,6 +461,11 @@ def cases(tier):
         for k in (2, 3):
             for seq in itertools.product(["T1", "T2", "x1"], repeat=k):
                 if "T1" in seq and "T2" in seq:
+                    yield {"kind": "adapter", "adapter": adapter, "seq": list(seq)}
+    for adapter in ("streamreader", "path", "path.gz", "fileobj", "jsonfile", "sqlite", "concat", "stream-url+fileobj"):
+        for k in (2, 3, 4):
+            for seq in itertools.product(["x1", "A3", "A4", "y2"], repeat=k):
+                if ("A3" in seq or "A4" in seq) and ("x1" in seq or "y2" in seq) and (k < 4 or tier == "thorough" or seq[0] in ("A3", "x1")):
                     yield {"kind": "adapter", "adapter": adapter, "seq": list(seq)}
     # the same under an active comparison-ignore configuration: records that differ only in an ignored field are "equal"
     for adapter in ("streamreader", "path", "path.gz", "fileobj", "jsonfile", "sqlite"):
